@@ -9,58 +9,58 @@ NOTE = ("Static analysis only: the check decides structural rules (necessary con
         "hand-written reference tables under /verif/spec, the rule code (self-tested on seeded breaks). ")
 
 CHECKS = {
- "C01": dict(tech="CFG dominance / must-pass-through rules over MIR; EOF-leaf fix-point over the extracted tokenizer automaton; who-may-write rules",
+ "C01": dict(tech="CFG dominance / must-pass-through rules over MIR; EOF-leaf fix-point over the extracted tokenizer automaton; who-may-write rules; finite-domain decision table of the consumed-count functions; constructor discipline of the encoding type; control dependence of the ambiguity guard on `strict`",
       text="Decides the structural conditions that make lexemes and raw gaps tile every chunk exactly once (lexeme construction and the writers of lexeme_start, end-of-input emission in all 65 states, emit/commit/flush ordering on every CFG path of the dispatcher and of write()/end(), raw-first serialisation and write-implies-invalidate). Universal over inputs/chunkings because the rules hold on every path of the automaton/CFG; it does not decide byte equality of decode/encode of captured text.",
       ref="DESIGN.md §3 C01"),
- "C09": dict(tech="typestate/dataflow over the tokenizer automaton extracted from the macro-expanded state machine (all paths), with action effects read from the TagScanner impl",
+ "C09": dict(tech="typestate/dataflow over the tokenizer automaton extracted from the macro-expanded state machine (all paths), with action effects read from the TagScanner impl; complete decision tables of RequestLexeme feedback in foreign content; control dependence of end-tag lexeme requests on disabled emission",
       text="Decides the hold-back clauses: text released at end of chunk in the six text states, the tag-start mark never live on a cycle nor at text entry / token emission, look-ahead hold-back bounded, consumed-count table of the scanner. Holds for every input because it holds on every path of the finite automaton. Does not decide schedule-independence of pending(k) as a relation between runs.",
       ref="DESIGN.md §3 C09"),
  "C11": dict(tech="CFG path rules (dominance, must-pass-through, operand identity) over the MIR of TransformStream::write/end and the dispatcher",
       text="Decides on every CFG path that each Err exit is a bail-out site, that handlers run before the raw flush and exactly at those sites, that the flushed operands are the ones that make no byte lost/duplicated, that commit follows success, and that the two flags are independent. Exhaustive over paths of those functions; the byte equality at run time for each failure index is not decided.",
       ref="DESIGN.md §3 C11"),
- "C12": dict(tech="who-may-call + dominance rules over every sink/output-handler call site in MIR; non-emptiness proofs per site; poisoning guard path rule",
+ "C12": dict(tech="who-may-call + dominance rules over every sink/output-handler call site in MIR; non-emptiness proofs per site; poisoning guard path rule; dropped-Result scan over all crate error types; reachability with the Ok edge removed (first handler error stops dispatch)",
       text="Decides: encoding announced before any chunk and at every switch; the zero-length chunk emitted exactly once, last, only after handle_end succeeded; every other value handed to the sink is provably non-empty (constant, dominated by an emptiness test, forwarding, or a reviewed table entry); every Err of write/end poisons and poisoned use panics before reaching the stream; no Drop emits. Prefix relation between runs is not decided.",
       ref="DESIGN.md §3 C12"),
- "C02": dict(tech="end-of-chunk leaf rules over the extracted automaton; type-driven completeness of Align impls; CFG dominance rules (flush before scope change, decoder fast-path guard)",
+ "C02": dict(tech="end-of-chunk leaf rules over the extracted automaton; type-driven completeness of Align impls; CFG dominance rules (flush before scope change, decoder fast-path guard); finite-domain decision table of the consumed-count functions; who-may-call rule for BOM-handling decoders",
       text="Decides the mechanisms that make chunk boundaries invisible: no state decides on a truncated look-ahead (all 65 states, every matched prefix), every stored range is re-based (type-driven over the ADTs), break_on_end_of_input re-bases the cursor with the reported count, pending text is flushed before scope can change, the decoder's fast path is never taken while a split character is pending. Equality of outputs between two schedules as such is not decided.",
       ref="DESIGN.md §3 C02"),
- "C03": dict(tech="dataflow of the text type over the extracted automaton; finite-domain abstract interpretation of the tag predicates and of the ambiguity guard compared with tables transcribed from the HTML specification",
+ "C03": dict(tech="dataflow of the text type over the extracted automaton; finite-domain abstract interpretation of the tag predicates and of the ambiguity guard compared with tables transcribed from the HTML specification; lockstep product exploration of the extracted automaton against a WHATWG reference model; complete decision tables of the tree-builder simulator in foreign content; control dependence of namespace entry on the self-closing flag",
       text="Decides: every tag emission is followed by the dynamic text state and every literal transition into a text state is type-consistent (all paths of the automaton); the complete decision tables (all Tag variants x states) of the text-mode table, foreign-content break-out list, integration points and of AmbiguityGuard equal the specification-derived reference; strict only gates the guard; 'appropriate end tag' compares against a hash recorded for start tags only. Token-boundary equivalence with the WHATWG tokenizer on all inputs is decided only as far as these clauses reach.",
       ref="DESIGN.md §3 C03"),
- "C06": dict(tech="type-driven bookmark completeness; CFG dominance rules on TagScanner::finish_tag_name and the dispatcher's hint-flag protocol; who-may-call rule for tree-builder feedback",
+ "C06": dict(tech="type-driven bookmark completeness; CFG dominance rules on TagScanner::finish_tag_name and the dispatcher's hint-flag protocol; who-may-call rule for tree-builder feedback; call-sequence rules for the VM's recovery functions; order rule 'VM told before the stop test' on the dispatcher CFG",
       text="Decides the hand-over between tag scanner and lexer: every bookmark field captured and restored, sticky per-tag scratch reset on every continuing exit, the got_flags_from_hint protocol, feedback requested once per tag. Equality of event logs under two handler sets is a relation between runs and is not decided.",
       ref="DESIGN.md §3 C06"),
- "C13": dict(tech="compile_fail witnesses with compiling twins (type-level); who-may-call rules for BOM-sniffing decoders and the write-once shared encoding; CFG placement of the encoding switch",
+ "C13": dict(tech="compile_fail witnesses with compiling twins (type-level); who-may-call rules for BOM-sniffing decoders and the write-once shared encoding; CFG placement of the encoding switch; dominance of every from_utf8 by an `encoding == UTF_8` test; control dependence of the write-once encoding flag on Some(charset)",
       text="Decides: only ASCII-compatible encodings can be configured (type-level, proved by the compiler on witnesses), the encoding can change at most once and is applied right after the meta token with the sink notified, inserted &str bytes are routed through the encoder, no BOM-sniffing decode entry point touches document fragments. Decoder arithmetic at split characters is encoding_rs behaviour and not decided.",
       ref="DESIGN.md §3 C13"),
- "C14": dict(tech="operand-identity and dominance rules over MIR for every place a document offset is added, advanced or remembered; type-driven Align completeness",
+ "C14": dict(tech="operand-identity and dominance rules over MIR for every place a document offset is added, advanced or remembered; type-driven Align completeness; provenance (atom) analysis of the value start and its presence marker; operand-shape rule 'lengths are source byte counts'",
       text="Decides the offset-carrying clauses: lexeme/attribute locations add the document offset exactly once, the offset advances only in Parser::parse by the reported count, modified tokens keep their length, text-chunk locations follow the contiguity protocol in the decoder. That encoding_rs read counts are right is assumed.",
       ref="DESIGN.md §3 C14"),
- "C15": dict(tech="progress analysis of the automaton per input symbol; must-typestate of action preconditions; inventory of panic-capable MIR sites against a reviewed table with re-checked guard witnesses; call-graph cycle detection",
+ "C15": dict(tech="progress analysis of the automaton per input symbol; must-typestate of action preconditions; inventory of panic-capable MIR sites against a reviewed table with re-checked guard witnesses; call-graph cycle detection; generic guard analysis (real dominating guards sharing operand provenance, upper-bound tests for indices) auto-discharging unreviewed sites",
       text="Structural part only: the tokenizer always makes progress, actions that raise internal errors are never reachable without their precondition, every panic-capable construct in non-test code is accounted for (new ones are reported), recursion is limited to reviewed cycles. It does not prove absence of panics for all inputs; two debug-assertion panics reachable from public inputs are recorded as known findings.",
       ref="DESIGN.md §3 C15"),
- "C16": dict(tech="may-typestate of the attribute-building actions over all automaton paths; lookup/edit discipline and getter routing over MIR; lint for byte-wise case folding of encoded names",
+ "C16": dict(tech="may-typestate of the attribute-building actions over all automaton paths; lookup/edit discipline and getter routing over MIR; lint for byte-wise case folding of encoded names; complete decision table of the stack directive; comparison-shape rule for the namespace depth test",
       text="Decides: attributes are opened, named, valued and closed in protocol order on every path and a tag is emitted only with no attribute open; lookups lower-case the query, return the first match, see edits, removal removes all duplicates; getters route to the right decoder; the reported namespace is the one the tag was processed in. Byte-wise folding of multi-byte encoded names is a known finding. Exact closing-quote arithmetic is not decided.",
       ref="DESIGN.md §3 C16"),
- "C10": dict(tech="charge-dominates-grow dominance rules with operand identity over MIR; error-discipline rule over every Result carrying MemoryLimitExceededError; type-driven inventory of growable containers",
+ "C10": dict(tech="charge-dominates-grow dominance rules with operand identity over MIR; error-discipline rule over every Result carrying MemoryLimitExceededError; type-driven inventory of growable containers; over-approximate call graph + growth-site analysis classifying every container field (charged / no growth reachable from write-end / bounded / token); comparison-shape rule for the retained-data flag",
       text="Decides the accounting clauses: both limited containers charge the limiter (with the same operands) before every reservation and grow only under a reservation or a sufficient-capacity branch; no memory-limit error is dropped or re-labelled; the limiter compares after adding; one limiter is shared by the VM stack and the parsing buffer; every growable container field is classified (charged / configuration-bounded / token-bounded / finding). Containers that grow with the document without being charged are recorded as known findings. Monotonicity in M is a relation between runs and is not decided.",
       ref="DESIGN.md §3 C10"),
  "C18": dict(tech="absence-of-shared-state scans (statics with Freeze/thread_local/mut classification from rustc, unsafe Send/Sync impls, lazy globals, hash iteration) over both crates; compile_fail Send witnesses with compiling twins",
       text="Decides determinism/isolation through its cause: no static of either crate is mutable or interior-mutable, the only thread-local is the C API's LAST_ERROR accessed through try_with by two functions, sharing objects are created per rewriter, hash iteration is order-insensitive, and Send-ness is proved by the compiler on witnesses. Equality of concurrent and sequential runs as such is not decided.",
       ref="DESIGN.md §3 C18"),
- "C04": dict(tech="variant-set agreement between the selector validator and the translator (expanded syntax tree); negation-over-conjunction soundness condition; stack/counter maintenance order and the three-stage matching pipeline as MIR call-sequence rules",
+ "C04": dict(tech="variant-set agreement between the selector validator and the translator (expanded syntax tree); negation-over-conjunction soundness condition; stack/counter maintenance order and the three-stage matching pipeline as MIR call-sequence rules; complete decision table of the stack directive (namespace x tag) by finite-domain abstract interpretation; combinator / nth routing agreement across AST builder, compiler and VM (field flow); absolute-index lint over iterator chains",
       text="Structural clauses only: everything the validator accepts has a translation, the six attribute operators map to six matcher methods, names are folded on both sides, the open-element stack and sibling counters are maintained in the required order, the void/self-closing directive table, and every start tag runs all three matching stages including after an attribute bail-out. :not() over a compound / a list under double negation is a known finding (F2). The compiled program's equivalence with CSS semantics for all selector sets and documents is not decided, nor is the arithmetic of an+b.",
       ref="DESIGN.md §3 C04"),
- "C05": dict(tech="syntax-tree rules on the handler bookkeeping (balance and independence of activation, kind/flag/token table across four functions) and MIR ordering rules",
+ "C05": dict(tech="syntax-tree rules on the handler bookkeeping (balance and independence of activation, kind/flag/token table across four functions) and MIR ordering rules; type-driven bookmark completeness; control dependence and who-may-write rule for the can-have-content flag",
       text="Decides the bookkeeping clauses: the handler vectors activated for a matched element's content are exactly those deactivated when it closes, each independently; one table relates handler kind, capture flag and token variant in all four places; selector handlers are registered before document handlers and iterated in order; element/end-tag/end handlers are one-shot; sticky scanner scratch cannot turn a start tag into an end-tag hint. Exactly-once delivery over all open/close sequences depends on the VM's behaviour and is not decided.",
       ref="DESIGN.md §3 C05"),
- "C07": dict(tech="sibling cross-check of 28 token mutation methods and a documented-table check of the Element operations on the expanded syntax tree; serialisation-order and emission-gate rules",
+ "C07": dict(tech="sibling cross-check of 28 token mutation methods and a documented-table check of the Element operations on the expanded syntax tree; serialisation-order and emission-gate rules; complete decision table of void / self-closing handling; attribute lookup discipline over MIR",
       text="Decides that each API operation edits the documented place (which list, which end), that streaming twins differ only in the chunk constructor, that mutated tokens serialise as before/(self|replacement)/after, that element-level end-tag edits are applied before user end-tag handlers, that removal of an attribute removes all duplicates, and that removed content is gated by emission_enabled. That arbitrary compositions equal the reference edit is not decided.",
       ref="DESIGN.md §3 C07"),
- "C08": dict(tech="writer/reader agreement as language inclusions: reject/escape byte sets read from the source vs. the tokenizer automaton over all 256 bytes; DFA inclusion (product construction) for comment text",
+ "C08": dict(tech="writer/reader agreement as language inclusions: reject/escape byte sets read from the source vs. the tokenizer automaton over all 256 bytes; DFA inclusion (product construction) for comment text; constructor discipline of the encoding type; must-not-reach-Err rule for raw-byte invalidation",
       text="Decides exhaustively (finite alphabets / regular languages) that accepted tag names and attribute names cannot leave the name states, that the double-quoted value state ends only on escaped bytes, that escaped body text can reach no tag state, and that every comment text that would end the comment early is rejected (counterexample-producing DFA inclusion); plus atomicity and no-replacement encoding of validated setters. Cross-encoding confusion and other parsers are not decided.",
       ref="DESIGN.md §3 C08"),
- "C17": dict(tech="C header prototype reader compared with extern \"C\" signatures from MIR; namesake-routing, catch_panic containment, Err-edge reachability and ownership pairing rules over the C API crate's MIR",
+ "C17": dict(tech="C header prototype reader compared with extern \; closure-capture analysis of handler closures; dominance of validation by ownership transfer (drop_callback pairing); dropped-Result scan"C\" signatures from MIR; namesake-routing, catch_panic containment, Err-edge reachability and ownership pairing rules over the C API crate's MIR",
       text="Decides wrapper discipline: all 93 declared functions exist with matching arity and type classes and the repr(C) struct layouts agree; each accessor/mutator calls its Rust namesake and is_html selects Html; rewriter new/write/end run only under catch_panic; every examined Result reaches save_last_error on its Err edge; streaming callbacks succeed iff they return 0; Box::into_raw/from_raw types pair up and Str::new never returns NULL for a present string. Equality of C-driven and Rust-driven runs and allocator hygiene over all histories are not decided.",
       ref="DESIGN.md §3 C17"),
 }
